@@ -117,6 +117,8 @@ F('make_nterm_first', r'constexpr\s+const\s+term_subset&\s+make_nterm_first\(siz
          S(r'return nterm_first\[nt\];', 'return &nterm_first[nt];', min=2, name='R5:return-ref')] + FN_COMMON + OBJ)
 F('make_right_side_slice_empty', r'constexpr\s+bool\s+make_right_side_slice_empty\(const rule_info& ri,\s*size_t start\)', 'bool make_right_side_slice_empty(const struct rule_info* ri, size_t start)', scope=SA,
   rules=[S(r'auto idx = ', 'size_t idx = ', name='R6'), S(r'make_nterm_empty\(', 'vx_nterm_empty(', min=0, name='abstract callee: make_nterm_empty'), S(r'\bri\.', 'ri->', min=3)] + FN_COMMON + OBJ)
+F('make_right_side_empty', r'constexpr\s+bool\s+make_right_side_empty\(const rule_info& ri\)', 'bool make_right_side_empty(const struct rule_info* ri)', scope=SA,
+  rules=[S(r'\bmake_right_side_slice_empty\(', 'vx_slice_empty_rec(', min=0, name='abstract callee: make_right_side_slice_empty (ghost record)')])
 F('make_nterm_empty', r'constexpr\s+bool\s+make_nterm_empty\(size16_t nt\)', 'bool make_nterm_empty(size16_t nt)', scope=SA,
   rules=[S(r'make_right_side_empty\(gi\.rule_infos\[([^\]]*)\]\)', r'vx_rs_empty0(&gi.rule_infos[\1])', name='abstract callee: make_right_side_empty')] + FN_COMMON + OBJ)
 
